@@ -24,7 +24,10 @@ OPS = [
     ("html-with-assets/to_data", "d", b"![a](i.png) <k@l.m>\n", D, 12),
     ("epub/to_data", "d", b"Title: E\n\n# H\n\n![a](i.png) text <e@f.g>\n", D, 1),
     ("opml-export/string", "s", NOTES, D, 9),
-    ("compat/html/string", "s", b"Setext\n======\n\n<q@r.s> & text\n", mmd.EXT_COMPAT, 0),
+    ("compat/html/string", "s", b"Setext\n======\n\n<q@r.s> & text $m$ \\\\(n\\\\) $$o$$ [^f] {++c++} \"q\" x^2^ H~2~O [%v] [>ab] [#ci] [?gl] {{TOC}} `r`{=html}\n\n[^f]: n\n\n| t |\n|---|\n| c |\n\nterm\n: def\n", mmd.EXT_COMPAT, 0),
+    ("compat/latex/string", "s", b"Setext\n------\n\n$m$ \\\\[n\\\\] [^f] \"q\" a--b\n\n[^f]: n\n", mmd.EXT_COMPAT, 2),
+    ("no-notes-no-critic/html/to_data", "d", b"# H\n\ntext[^f] [#c] [?g] {++a++} {--b--} $m$ \"q\" <u@v.w>\n\n[^f]: n\n", E["SMART"], 0),
+    ("all-extensions/html/string", "s", b"Title: T\n\n# H\n\ntext[^f] {++a++} $m$ \"q\"\n\n<div>*h*</div>\n\n[^f]: n\n", D | E["PROCESS_HTML"] | E["NO_LABELS"] | E["COMPLETE"] | E["OBFUSCATE"], 0),
     ("engine-reuse/convert html", "E0", NOTES, D, 0),
     ("engine-reuse/convert latex", "E0", NOTES, D, 2),
     ("engine-reuse/parse+export opml", "E1", NOTES, D, 9),
